@@ -107,7 +107,11 @@ func main() {
 		case strings.HasPrefix(rel, "verifrt/"):
 			replace[filepath.Join(repoDir, "app", rel)] = p
 		case strings.HasPrefix(rel, "repo/"):
-			replace[filepath.Join(repoDir, strings.TrimPrefix(rel, "repo/"))] = p
+			sub := strings.TrimPrefix(rel, "repo/")
+			if allow, ok := overlayFiles[filepath.Dir(sub)]; ok && !allow[filepath.Base(sub)] {
+				return nil
+			}
+			replace[filepath.Join(repoDir, sub)] = p
 		}
 		return nil
 	})
